@@ -8,6 +8,10 @@
    { URI key u } U { variant key (u, m) } over the URIs requested and the variant maps resolved.
    C19_invalidation: invalidation deletes the index and every entry it listed (C07_invalidates), so no
    key is left that was reachable only through the deleted index.
+   C19_history / C19_history_every_point: over every history from the empty store (Proofs/FootProofs.v: store invariant
+   InvF, tree predicate SafeF), the key set of the store is contained in the candidate keys of the distinct (request,
+   Vary value) pairs, whose number does not depend on the length of the history; every index is duplicate-free, holds
+   no null element and only references to such variants.
    The pinned tree's unbounded growth (Vary: * appended a reference on every request) is the defect
    repaired by the fix recorded in known_findings.json; the monitor mon_C19 checks the footprint of the
    real store against a bound that does not depend on the number of repetitions, on long repetitive
@@ -152,6 +156,122 @@ Example C19_vary_star_does_not_grow :
   let r := {| r_id := bs "k#1"; r_vary := bs "*"; r_resolved := [(bs "*", [])]; r_recv := 0 |} in
   List.length (unique_refs (repeat (Some r) 1000)) = 1%nat.
 Proof. vm_compute. reflexivity. Qed.
+
+(* ---------- whole histories ---------- *)
+(* For every history from the empty store, every origin script and every configuration: let [reqs] cover the requests
+   that went to the origin (up to URL key and header block: a request repeated a million times counts once) and
+   [varies] the Vary values the origin used.  Then after the history — and after every prefix of it
+   (C19_history_every_point) — every key of the store is one of [candidate_keys reqs varies]: the URL key of a
+   covered request, or the key of a variant such a request resolves to under a covered Vary value; every index lists
+   each response id at most once, holds nothing but references to such variants, and is therefore no longer than the
+   candidate list; and that list has at most |reqs| * (1 + |varies|) members — a number that does not depend on the
+   length of the history. *)
+From HC.Proofs Require Import ProvProofs FootProofs.
+
+Definition distinct_keys (s : store) : list bytes := nodup (list_eq_dec Z.eq_dec) (map fst s).
+
+Lemma alookup_some_of_in {V} k (v : V) m : In (k, v) m -> exists v', alookup k m = Some v'.
+Proof.
+  induction m as [|[k' v'] m IH]; cbn; [intros []|]. destruct (beq k k') eqn:E; [eexists; reflexivity|].
+  intros [H|H]; [|apply IH, H]. injection H as -> _. rewrite beq_refl in E. discriminate.
+Qed.
+
+Theorem C19_history : forall cfg h t0 script reqs varies,
+  let Lf := flat_map (fun o => x_events o ++ x_bg_events o) (run_history cfg h (init_world t0 script)) in
+  (forall q0, Pl Lf q0 -> exists q1, In q1 reqs /\ make_url_key (q_url q1) = make_url_key (q_url q0) /\ q_hdr q1 = q_hdr q0) ->
+  (forall v, VsL Lf v -> In v varies) ->
+  let s := w_store (world_after cfg h (init_world t0 script)) in
+  let cand := candidate_keys reqs varies in
+  (forall k, amem k s = true -> In k cand) /\
+  (List.length (distinct_keys s) <= List.length cand)%nat /\
+  (forall u l, get_refs s u = Some l ->
+     NoDup (some_ids l) /\ List.length l = List.length (some_ids l) /\ (List.length l <= List.length cand)%nat) /\
+  (List.length cand <= List.length reqs * (1 + List.length varies))%nat.
+Proof.
+  intros cfg h t0 script reqs varies Lf Hreqs Hvar s cand.
+  assert (HI : InvF (Pl Lf) (VsL Lf) s).
+  { apply history_safeF; [apply InvF_empty|apply incl_refl]. }
+  assert (Hkeys : forall k, amem k s = true -> In k cand).
+  { intros k Hk. eapply footprint_keys; eassumption. }
+  split; [exact Hkeys|]. split.
+  - apply NoDup_incl_length; [apply NoDup_nodup|]. intros k Hk. unfold distinct_keys in Hk. apply nodup_In in Hk.
+    apply in_map_iff in Hk as ([k' v] & <- & Hin). cbn [fst]. apply Hkeys. unfold amem.
+    destruct (alookup_some_of_in _ _ _ Hin) as [v' ->]. reflexivity.
+  - split; [|apply candidate_keys_length].
+    intros u l Hl. pose proof (footprint_index Lf reqs varies Hreqs Hvar s u l HI Hl) as Hlen.
+    destruct HI as [_ I2]. destruct (I2 _ _ Hl) as (_ & Hf & Hn). split; [exact Hn|]. split; [|exact Hlen].
+    clear Hlen Hn Hl. induction Hf as [|x l' (r & -> & _) _ IH]; [reflexivity|]. cbn. f_equal. exact IH.
+Qed.
+Print Assumptions C19_history.
+
+(* ... at every point of the history: the candidates computed for the whole history bound the store after every prefix *)
+Theorem C19_history_every_point : forall cfg h t0 script reqs varies n,
+  let Lf := flat_map (fun o => x_events o ++ x_bg_events o) (run_history cfg h (init_world t0 script)) in
+  (forall q0, Pl Lf q0 -> exists q1, In q1 reqs /\ make_url_key (q_url q1) = make_url_key (q_url q0) /\ q_hdr q1 = q_hdr q0) ->
+  (forall v, VsL Lf v -> In v varies) ->
+  let s := w_store (world_after cfg (firstn n h) (init_world t0 script)) in
+  let cand := candidate_keys reqs varies in
+  (forall k, amem k s = true -> In k cand) /\
+  (List.length (distinct_keys s) <= List.length cand)%nat /\
+  (forall u l, get_refs s u = Some l ->
+     NoDup (some_ids l) /\ List.length l = List.length (some_ids l) /\ (List.length l <= List.length cand)%nat) /\
+  (List.length cand <= List.length reqs * (1 + List.length varies))%nat.
+Proof.
+  intros cfg h t0 script reqs varies n Lf Hreqs Hvar.
+  assert (Hsub : incl (flat_map (fun o => x_events o ++ x_bg_events o) (run_history cfg (firstn n h) (init_world t0 script))) Lf).
+  { rewrite run_history_firstn. unfold Lf. generalize (run_history cfg h (init_world t0 script)). intros os.
+    revert n. induction os as [|o os IH]; intros [|n]; cbn [firstn flat_map]; try (intros x []).
+    intros x Hx. apply in_app_or in Hx as [Hx|Hx]; apply in_or_app; [left; exact Hx|right; eapply IH; exact Hx]. }
+  apply C19_history.
+  - intros q0 Hq. apply Hreqs. eapply Pl_mono; [exact Hsub|exact Hq].
+  - intros v [->|(idx & q & a & b & r & Hin & Hv)]; apply Hvar; [left; reflexivity|].
+    right. exists idx, q, a, b, r. split; [apply Hsub, Hin|exact Hv].
+Qed.
+Print Assumptions C19_history_every_point.
+
+(* non-vacuity: one resource with Vary: Accept-Language, requested alternately for two languages, six times, each time after
+   the stored response went stale (so that every request reaches the origin and is stored again): the premises hold with
+   two requests and two Vary values; the store ends with three keys (the index and two entries) and an index of two
+   references, as after the first two exchanges *)
+Definition ex_url : url := {| u_scheme := bs "http"; u_host := bs "a.test"; u_path := bs "/x"; u_query := []; u_force_query := false |}.
+Definition ex_req (lang : string) : request :=
+  {| q_method := bs "GET"; q_url := ex_url; q_hdr := [(bs "Accept-Language", [bs lang])] |}.
+Definition ex_rep : origin_reply :=
+  RResp {| p_status := 200;
+           p_hdr := [(bs "Cache-Control", [bs "max-age=60"]); (bs "Vary", [bs "Accept-Language"]);
+                     (bs "Date", [bs "Sat, 01 Jan 2000 00:00:00 GMT"])];
+           p_body := 0; p_body_ok := true |}.
+Definition ex_history : history :=
+  [(0, ex_req "en"); (100 * second, ex_req "fr"); (100 * second, ex_req "en"); (100 * second, ex_req "fr");
+   (100 * second, ex_req "en"); (100 * second, ex_req "fr")].
+Definition ex_world : world := init_world (946684800 * second) (repeat (second, ex_rep, ex_rep) 6).
+Definition ex_cfg : config := {| cfg_swr_timeout := 0 |}.
+
+Example C19_history_nonvacuous :
+  let Lf := flat_map (fun o => x_events o ++ x_bg_events o) (run_history ex_cfg ex_history ex_world) in
+  let reqs := [ex_req "en"; ex_req "fr"] in
+  let varies := [[]; [bs "Accept-Language"]] in
+  (forall q0, Pl Lf q0 -> exists q1, In q1 reqs /\ make_url_key (q_url q1) = make_url_key (q_url q0) /\ q_hdr q1 = q_hdr q0) /\
+  (forall v, VsL Lf v -> In v varies) /\
+  List.length (call_requests Lf) = 6%nat /\
+  List.length (distinct_keys (w_store (world_after ex_cfg ex_history ex_world))) = 3%nat /\
+  List.length (distinct_keys (w_store (world_after ex_cfg (firstn 2 ex_history) ex_world))) = 3%nat /\
+  (exists l, get_refs (w_store (world_after ex_cfg ex_history ex_world)) (make_url_key ex_url) = Some l /\ List.length l = 2%nat).
+Proof.
+  cbv zeta. split; [|split; [|split; [vm_compute; reflexivity|split; [vm_compute; reflexivity|split; [vm_compute; reflexivity|]]]]].
+  - intros q0 Hq. apply Pl_call_requests in Hq.
+    assert (Hc : call_requests (flat_map (fun o => x_events o ++ x_bg_events o) (run_history ex_cfg ex_history ex_world)) =
+                 [ex_req "en"; ex_req "fr"; ex_req "en"; ex_req "fr"; ex_req "en"; ex_req "fr"]) by (vm_compute; reflexivity).
+    rewrite Hc in Hq. clear Hc. cbn [In] in Hq.
+    destruct Hq as [<-|[<-|[<-|[<-|[<-|[<-|[]]]]]]];
+      (exists (ex_req "en"); split; [left; reflexivity|split; reflexivity]) ||
+      (exists (ex_req "fr"); split; [right; left; reflexivity|split; reflexivity]).
+  - intros v Hv. apply VsL_reply_varies in Hv as [->|Hv]; [left; reflexivity|].
+    assert (Hc : reply_varies (flat_map (fun o => x_events o ++ x_bg_events o) (run_history ex_cfg ex_history ex_world)) =
+                 repeat [bs "Accept-Language"] 6) by (vm_compute; reflexivity).
+    rewrite Hc in Hv. apply repeat_spec in Hv. subst v. right. left. reflexivity.
+  - eexists. split; [vm_compute; reflexivity|reflexivity].
+Qed.
 
 (* the effect trees this property is stated about — which store / origin / clock operations happen, in which order, under
    which conditions, and what every path returns — are those /verif/translate derives from the Go source on this run
